@@ -807,6 +807,24 @@ theorem erase_pf_append_ext (l : List Entry) (i n : Nat) :
     rw [List.erase_of_not_mem h]
     simp
 
+theorem filter_nonPf_erase_pf (l : List Entry) (i : Nat) :
+    (l.filter (fun e => !e.isPf)).erase (.pf i) = (l.erase (.pf i)).filter (fun e => !e.isPf) := by
+  have hnot : Entry.pf i ∉ l.filter (fun e => !e.isPf) := by
+    intro h; have := (List.mem_filter.mp h).2; simp [Entry.isPf] at this
+  rw [List.erase_of_not_mem hnot]
+  induction l with
+  | nil => rfl
+  | cons a l ih =>
+    by_cases ha : a = .pf i
+    · subst ha
+      have hpf : (Entry.pf i).isPf = true := rfl
+      simp [List.filter_cons, hpf]
+    · have hn : Entry.pf i ∉ (l.filter (fun e => !e.isPf)) := by
+        intro h; have := (List.mem_filter.mp h).2; simp [Entry.isPf] at this
+      rw [List.erase_cons_tail (by simpa using ha)]
+      simp only [List.filter_cons]
+      split <;> simp [ih hn]
+
 theorem applyD_applyForeign (d : Disabler) (f : Foreign) (sh : Shell) :
     applyD d (applyForeign f sh) = applyForeign f (applyD d sh) := by
   cases d with
@@ -816,9 +834,9 @@ theorem applyD_applyForeign (d : Disabler) (f : Foreign) (sh : Shell) :
     · cases f <;> rfl
     · rfl
   | removeAst i =>
-    cases f <;> simp [applyD, applyForeign, erase_pf_append_ext, List.erase_comm]
+    cases f <;> simp [applyD, applyForeign, erase_pf_append_ext, List.erase_comm, filter_nonPf_erase_pf]
   | removeCleanup i =>
-    cases f <;> simp [applyD, applyForeign, erase_pf_append_ext, List.erase_comm]
+    cases f <;> simp [applyD, applyForeign, erase_pf_append_ext, List.erase_comm, filter_nonPf_erase_pf]
 
 theorem foldr_applyD_applyForeign (ds : List Disabler) (f : Foreign) (sh : Shell) :
     ds.foldr applyD (applyForeign f sh) = applyForeign f (ds.foldr applyD sh) := by
@@ -851,6 +869,9 @@ theorem applyForeign_fresh (f : Foreign) (n : Nat) (sh : Shell) (h : FreshL n sh
     · exact h.2 e he
     · subst he; trivial
   | rmCleanup k => exact ⟨h.1, fun e he => h.2 e (List.mem_of_mem_erase he)⟩
+  | clearAst => exact ⟨fun e he => by simp [applyForeign] at he, h.2⟩
+  | dropPfAst => exact ⟨fun e he => h.1 e (List.mem_filter.mp he).1, h.2⟩
+  | dropPfCleanup => exact ⟨h.1, fun e he => h.2 e (List.mem_filter.mp he).1⟩
 
 theorem applyForeign_clean (f : Foreign) (b : Shell) (h : Clean b) : Clean (applyForeign f b) := by
   refine ⟨fun j => by rw [applyForeign_jp]; exact h.jp j, ?_⟩
@@ -867,6 +888,9 @@ theorem applyForeign_clean (f : Foreign) (b : Shell) (h : Clean b) : Clean (appl
   | addCleanup k => exact h.ast
   | rmCleanup k => exact h.ast
   | other => exact h.ast
+  | clearAst => exact fun e he => by simp [applyForeign] at he
+  | dropPfAst => exact fun e he => h.ast e (List.mem_filter.mp he).1
+  | dropPfCleanup => exact h.ast
 
 theorem Leaks.foreign {cfg : Cfg} {b a : Shell} (h : Leaks cfg b a) (hfix : cfg.resetDisabler = true) (f : Foreign) :
     Leaks cfg (applyForeign f b) (applyForeign f a) := by
@@ -878,30 +902,33 @@ theorem Leaks.foreign {cfg : Cfg} {b a : Shell} (h : Leaks cfg b a) (hfix : cfg.
   · cases f <;> simp [applyForeign, ha]
   · cases f <;> simp [applyForeign, e]
 
-theorem mem_pf_applyForeign_ast (f : Foreign) (sh : Shell) (i : Nat) (h : Entry.pf i ∈ sh.ast) :
-    Entry.pf i ∈ (applyForeign f sh).ast := by
+theorem mem_pf_applyForeign_ast (f : Foreign) (hk : f.removesPf = false) (sh : Shell) (i : Nat)
+    (h : Entry.pf i ∈ sh.ast) : Entry.pf i ∈ (applyForeign f sh).ast := by
   cases f <;> simp only [applyForeign] <;> first
+    | (simp [Foreign.removesPf] at hk; done)
     | exact h
     | exact List.mem_append_left _ h
     | exact (List.mem_erase_of_ne (by simp)).mpr h
 
-theorem mem_pf_applyForeign_cleanup (f : Foreign) (sh : Shell) (i : Nat) (h : Entry.pf i ∈ sh.cleanup) :
-    Entry.pf i ∈ (applyForeign f sh).cleanup := by
+theorem mem_pf_applyForeign_cleanup (f : Foreign) (hk : f.removesPf = false) (sh : Shell) (i : Nat)
+    (h : Entry.pf i ∈ sh.cleanup) : Entry.pf i ∈ (applyForeign f sh).cleanup := by
   cases f <;> simp only [applyForeign] <;> first
+    | (simp [Foreign.removesPf] at hk; done)
     | exact h
     | exact List.mem_append_left _ h
     | exact (List.mem_erase_of_ne (by simp)).mpr h
 
 theorem erase_pf_applyForeign_ast (f : Foreign) (a u : Shell) (i : Nat) (h : u.ast = a.ast.erase (.pf i)) :
     (applyForeign f u).ast = (applyForeign f a).ast.erase (.pf i) := by
-  cases f <;> simp [applyForeign, h, erase_pf_append_ext, List.erase_comm]
+  cases f <;> simp [applyForeign, h, erase_pf_append_ext, List.erase_comm, filter_nonPf_erase_pf]
 
 theorem erase_pf_applyForeign_cleanup (f : Foreign) (a u : Shell) (i : Nat) (h : u.cleanup = a.cleanup.erase (.pf i)) :
     (applyForeign f u).cleanup = (applyForeign f a).cleanup.erase (.pf i) := by
-  cases f <;> simp [applyForeign, h, erase_pf_append_ext, List.erase_comm]
+  cases f <;> simp [applyForeign, h, erase_pf_append_ext, List.erase_comm, filter_nonPf_erase_pf]
 
 /-- A third-party list step keeps the invariant, relative to the base shell with the same step applied. -/
-theorem inv_foreign {cfg b0 st} (h : Inv cfg b0 st) (hfix : cfg.resetDisabler = true) (f : Foreign) :
+theorem inv_foreign {cfg b0 st} (h : Inv cfg b0 st) (hfix : cfg.resetDisabler = true) (f : Foreign)
+    (hk : f.removesPf = false) :
     Inv cfg (applyForeign f b0) { st with sh := applyForeign f st.sh } := by
   refine ⟨applyForeign_fresh f _ _ h.fresh, ?_, ?_⟩
   · rw [undo_foreign]; exact h.leaks.foreign hfix f
@@ -917,10 +944,10 @@ theorem inv_foreign {cfg b0 st} (h : Inv cfg b0 st) (hfix : cfg.resetDisabler = 
         refine ⟨i', ?_⟩
         rw [undo_foreign, applyForeign_jp]
         simpa [applyForeign_jp] using e'
-      · refine ⟨i, mem_pf_applyForeign_ast f _ _ hm, ?_⟩
+      · refine ⟨i, mem_pf_applyForeign_ast f hk _ _ hm, ?_⟩
         rw [undo_foreign]
         exact erase_pf_applyForeign_ast f _ _ _ e
-      · refine ⟨k, mem_pf_applyForeign_cleanup f _ _ hmc, ?_⟩
+      · refine ⟨k, mem_pf_applyForeign_cleanup f hk _ _ hmc, ?_⟩
         rw [undo_foreign]
         simp only [hfix, if_true]
         exact erase_pf_applyForeign_cleanup f _ _ _ ec
@@ -934,20 +961,21 @@ def foreignBase : Shell → List Op → Shell
 /-- the invariant along histories that contain third-party list steps (D3 repair assumed) -/
 theorem inv_run_foreign {cfg : Cfg} (hfix : cfg.resetDisabler = true) :
     ∀ (ops : List Op) (b0 : Shell) (st : St), Clean b0 → Inv cfg b0 st →
-      (∀ op ∈ ops, op.isFresh = false) →
+      (∀ op ∈ ops, op.isFresh = false ∧ op.removesPf = false) →
       Inv cfg (foreignBase b0 ops) (run cfg st ops) ∧ Clean (foreignBase b0 ops) := by
   intro ops
   induction ops with
   | nil => intro b0 st hc h _; exact ⟨h, hc⟩
   | cons op ops ih =>
     intro b0 st hc h hop
-    have hop' : ∀ o ∈ ops, o.isFresh = false := fun o ho => hop o (List.mem_cons_of_mem _ ho)
-    have h1 := hop op List.mem_cons_self
+    have hop' : ∀ o ∈ ops, o.isFresh = false ∧ o.removesPf = false := fun o ho => hop o (List.mem_cons_of_mem _ ho)
+    have h1 := (hop op List.mem_cons_self).1
+    have h1r := (hop op List.mem_cons_self).2
     simp only [run, List.foldl_cons]
     cases op with
     | foreign f =>
       simp only [foreignBase, step]
-      exact ih _ _ (applyForeign_clean f b0 hc) (inv_foreign h hfix f) hop'
+      exact ih _ _ (applyForeign_clean f b0 hc) (inv_foreign h hfix f (by simpa [Op.removesPf] using h1r)) hop'
     | freshImporter => simp [Op.isFresh] at h1
     | enable e fl =>
       exact ih _ _ hc (inv_step h hc _ (by simp [Op.notPlain, Op.isFresh, Op.isForeign])) hop'
